@@ -137,7 +137,12 @@ fn replay(id: &str, path: &str) -> i32 {
     let w = &v["witness"];
     let keys = match w["engine"].as_str().unwrap_or("") {
         "natdiff" => sweeps::confirm_nat(w),
-        e => Err(format!("replay for engine {e:?} of {id} is not available")),
+        _ => {
+            // every other engine replays through the property's own confirmation function
+            std::env::set_var("AXMC_REPLAY", path);
+            let tier = if v["tier"] == "thorough" { Tier::Thorough } else { Tier::Quick };
+            return run_prop(id, tier);
+        }
     };
     match keys {
         Ok(ks) => {
